@@ -273,3 +273,37 @@ Proof.
   intros M s1 s2 a b p a' b' H1 H2 Hag Hr Ea Eb Hopt.
   destruct (perform_agree M s1 s2 a b p a' b' H1 H2 Hag Hr Ea Eb) as [[_ H]|[_ H]]; [exact H|congruence].
 Qed.
+
+(* ---------- the Solver object solved twice (C18) ---------------------------------- *)
+
+Lemma do_solve_fields : forall s lim e s', do_solve s lim e = Ok s' ->
+  s_inst s' = s_inst s /\ s_opts s' = s_opts s /\ s_bf s' = s_bf s /\ s_twopl s' = s_twopl s /\ s_solved s' = true.
+Proof.
+  intros s lim e s' H. unfold do_solve in H.
+  destruct (if s_solved s then (clock_at e 0, 1%nat) else (s_tstart s, 0%nat)) as [tstart i0].
+  destruct (s_bf s) eqn:Hbf.
+  - destruct (bf_run (o_pc (s_opts s)) (s_inst s)); cbn [bind] in H; [|discriminate].
+    injection H as <-. cbn. repeat split; congruence.
+  - destruct (run (s_inst s) (s_opts s) (e_solve e)); cbn [bind] in H; [|discriminate].
+    injection H as <-. cbn. repeat split; congruence.
+Qed.
+
+(* solving the same Solver object again (any time limits, any clock, any two correct back ends): same status,
+   same logged lines; the previous solve's values, status and timings do not influence the second solve *)
+Theorem resolve_reproducible : forall s lim1 e1 s1 lim2 e2 s2,
+  s_bf s = false ->
+  milp_ok (s_inst s) (e_solve e1) -> milp_ok (s_inst s) (e_solve e2) ->
+  do_solve s lim1 e1 = Ok s1 -> do_solve s1 lim2 e2 = Ok s2 ->
+  s_status s2 = s_status s1 /\ s_info s2 = s_info s1.
+Proof.
+  intros s lim1 e1 s1 lim2 e2 s2 Hbf H1 H2 D1 D2.
+  destruct (do_solve_fields _ _ _ _ D1) as [Hi [Ho [Hb _]]].
+  unfold do_solve in D1, D2. rewrite Hb, Hi, Ho in D2. rewrite Hbf in D1, D2.
+  destruct (if s_solved s then (clock_at e1 0, 1%nat) else (s_tstart s, 0%nat)) as [t1 i1].
+  destruct (if s_solved s1 then (clock_at e2 0, 1%nat) else (s_tstart s1, 0%nat)) as [t2 i2].
+  destruct (run (s_inst s) (s_opts s) (e_solve e1)) as [out1|] eqn:R1; cbn [bind] in D1; [|discriminate].
+  destruct (run (s_inst s) (s_opts s) (e_solve e2)) as [out2|] eqn:R2; cbn [bind] in D2; [|discriminate].
+  injection D1 as <-. injection D2 as <-. cbn [s_status s_info].
+  destruct (rerun_reproducible _ _ _ _ _ _ H1 H2 R1 R2) as [_ [Hst Hinfo]].
+  split; [now rewrite Hst|now rewrite Hinfo].
+Qed.
